@@ -14,10 +14,10 @@ CLAIMED = {
 }
 
 CLAIMED["C08"] = ("exploration",
-  "deterministic simulation: same tape re-executed in-process (M1), in fresh processes with other map hash seeds (M2) and as a later world of a long-lived process vs first world of a fresh one (M4); byte comparison of full output logs",
-  "Seeded search over simulated deployments that are rich in map-keyed constructs (several translation languages, headers, currencies, NLU ties). Each scenario is executed three times in one process and, sampled, again in a fresh OS process; every output the property names (events, segments, session JSON, Inspect, marshal, ExtractTemplates, ChangeLanguage, MigrateToLatest, Clone with fixed mapping, query String) is compared byte for byte. Evidence, not proof: repetition samples an order the Go runtime picks.",
-  "Trusts that the simulator owns every other source of nondeterminism (clock, UUID, random, HTTP, SMTP seams) - which this check itself tests. Map iteration order is sampled by repetition (probability >= 1/2 per visit of an order-dependent site with >= 2 keys), not yet controlled.",
-  "DESIGN.md §5 C08")
+  "deterministic simulation: same tape re-executed in-process (M1), on a host without asset cache (M1'), in fresh processes with other map hash seeds and after a sibling world (M2/M4), and under controlled map iteration orders on an instrumented scratch copy of the current tree (M3); byte comparison of full output logs",
+  "Seeded search over simulated deployments that are rich in map-keyed constructs (several translation languages, headers, currencies, NLU ties, definitions stored under older spec versions). Each scenario is executed three times in one process (M1), once on a host that builds its SessionAssets afresh and re-parses the asset document for every task (M1': what a long-lived SessionAssets served before is incidental process state), every 4th scenario again as the first world of a fresh OS process and in a fresh process right after its sibling world - the same tape in another environment - (M2/M4: process-wide state), and on a copy of the tree in which every map range, maps.Keys/Values and x/exp/maps call is rewritten to a controlled order (ascending, descending, rotated, seeded shuffle; per-site bisection names the responsible range) (M3). Every output the property names (events, segments, session JSON, context walk, Inspect, marshal, ExtractTemplates/Localizables, ChangeLanguage, MigrateToLatest, Clone with fixed mapping, PO extraction, query String) is compared byte for byte.",
+  "Trusts that the simulator owns every other source of nondeterminism (clock, UUID, random, HTTP, SMTP seams) - which this check itself tests. Evidence, not proof: orders and histories are sampled.",
+  "DESIGN.md §5 C08, B.2, B.6")
 
 def sim_claim(pid, tech, text, note):
     CLAIMED[pid] = ("exploration", "deterministic simulation with fault injection: " + tech, text + " Seeded search over simulated deployments (generated flows, assets, contacts, engine options; timers, personas, delivery/service/clock/stale-data faults; a separate fault-free configuration). A clean batch is evidence, not proof.", note, "DESIGN.md §5 " + pid)
@@ -29,15 +29,15 @@ sim_claim("C03", "event-sourced replica: host's own generic-JSON event applier v
   "Replaying each sprint's events (own applier, no goflow contact code) over the contact as it was before must reproduce the session contact; the host's event-sourced row must agree whenever the session was handed it; every directly applied modifier (all types, multi-URN/multi-group payloads, values at and beyond limits) must report modified iff the contact changed iff a change event was emitted, and do nothing when applied again at the same instant.",
   "The applier mirrors what a host database does with the documented event payloads; last-seen is taken from the instant of the message the host handed in; the two applications of a modifier share one simulated instant (date-only values are completed from the clock).")
 sim_claim("C05", "per-call no panic / no hang (watchdog + fresh-process confirmation) / step count / status; limit-caused Go errors by differential re-execution from the same seam snapshot; length scans of events",
-  "Every engine call must return (watchdog), not panic (recover), create at most MaxStepsPerSprint steps, end failed only with a failure event, accept at most MaxResumesPerSession resumes per session, and emit texts/names/fields/results within the configured limits; a Go error is re-executed from the same pre-state with only the step/resume limits x1000 to decide whether the limit caused it. Engine options are randomised per run (1..100 steps, 1..500 resumes, 4..10000 chars).",
+  "Every engine call must return (watchdog), not panic (recover), create at most MaxStepsPerSprint steps, end failed only with a failure event, accept at most MaxResumesPerSession resumes per session, and emit texts (of messages not built from a channel template), quick replies (of all messages), attachments, names, fields and results within the configured limits; a Go error is re-executed from the same pre-state with only the step/resume limits x1000 to decide whether the limit caused it. Engine options are randomised per run (1..100 steps, 1..500 resumes, 4..10000 chars).",
   "Limits below 4 characters are excluded (gocommon TruncateEllipsis panics for limits < 3). Quick-reply (64) and attachment (2048) limits are the documented constants written as literals.")
 sim_claim("C06", "membership == query result at every hand-back and after every effective direct modifier, over histories that change attributes by every route",
   "For every query-based group of the assets in force: contact in group iff CheckQueryBasedMembership is true, after every sprint (trigger and resume paths, UI edits between sprints, stale stored membership) and after every effective direct modifier; contacts that became non-active must have left their static groups.",
-  "Uses the repository's own query evaluator on the final contact (its correctness is C15's subject); where the session's base and merged environments disagree on a date condition either result is accepted (counted); a modifier that changes nothing is not required to repair stale stored membership.")
+  "Uses the repository's own query evaluator for the semantics (its correctness is C15's subject) but nothing computed earlier: the group's query text is parsed afresh under the evaluating environment, and the answer must be the same on the contact with its URNs in reverse order (metamorphic check). Assets may have been loaded under an older environment than the session's (fault). Where the session's base and merged environments disagree on a date condition either result is accepted (counted); a modifier that changes nothing is not required to repair stale stored membership.")
 
 CLAIMED["C10"] = ("fault_enumeration",
   "deterministic simulation with fault injection: at every wait reached in a simulated run the host forks the persisted session and enumerates one-step futures (resume type x live/restored x asset-store fault x resume limit), each under a restored seam snapshot",
-  "Seeded search reaches the session states (generated flows, histories, faults); at each reached wait the one-step future space is enumerated exhaustively: 4 resume types on a restored copy and on the live object, 7-8 asset faults between sprints (waiting flow deleted, parent flow deleted, waiting node removed, wait removed, router removed, flow type changed, definition unreadable, transient source error) x 4 resume types, the resume limit at and above the number of waits, and 4 resume types against every ended session. Rejected (engine error 101/102/103) => session JSON byte-identical, no events, and a following legitimate resume behaves exactly as on a pristine copy; impossible => failed session with failure event, no live runs, no Go error, no panic.",
+  "Seeded search reaches the session states (generated flows, histories, faults); at each reached wait the one-step future space is enumerated exhaustively: 4 resume types on a restored copy and on the live object, up to 13 asset faults between sprints (waiting flow deleted, parent flow deleted, parent node removed, waiting node removed, wait removed, router removed, flow type changed, definition unreadable, transient source error, all other flows unreadable / invalid / deleted) x 4 resume types, the resume limit at and above the number of waits, and 4 resume types against every ended session. Rejected (engine error 101/102/103) => session JSON byte-identical, no events, and a following legitimate resume behaves exactly as on a pristine copy; impossible => failed session with failure event, no live runs, no Go error, no panic.",
   "Exhaustive only over the one-step futures at the waits the search reaches; the reachable session states themselves are sampled. Trusts the seam snapshot/restore around forks (the main line's determinism check covers it).",
   "DESIGN.md §5 C10")
 sim_claim("C20", "dynamic events of every sprint checked against the static Inspect() of the flow revision that sprint ran (fresh assets, seam snapshot so observation is transparent)",
@@ -45,7 +45,7 @@ sim_claim("C20", "dynamic events of every sprint checked against the static Insp
   "Variable references and query-based groups are excepted as the property says; attribution of a result to an action of its node uses the node definition (several actions saving under one name: the one explaining the category).")
 
 sim_claim("C19", "twin worlds from one tape differing only in URN secrets (non-interference as a two-run property); per-call comparison of outcome, path, projected events, full context walk and a template battery; control pairs without the policy must differ",
-  "Two executions of the same simulated deployment - same tape, schedule, faults, clock/UUID/random streams - differ only in the path and display of every URN; under RedactionPolicyURNs the outcome, the path taken, every event minus fields that are URNs by contract, a full recursive walk of Session.CurrentContext() (text, format and JSON renderings, lazies forced) and ~70 templates over it must be identical; nameless contacts render as their id; URN conditions (any syntax) are rejected by ParseQuery. Every 4th pair runs without the policy and must differ (sensitivity).",
+  "Two executions of the same simulated deployment - same tape, schedule, faults, clock/UUID/random streams - differ only in the path and display of every URN; under RedactionPolicyURNs the outcome, the path taken, every event minus fields that are URNs by contract, a full recursive walk of Session.CurrentContext() (text, format and JSON renderings, lazies forced) and ~70 templates over it must be identical; nameless contacts render as their id; URN conditions (any syntax) are rejected by ParseQuery. Every 4th pair runs without the policy: it must differ (counted) and @contact.urns must show the URN path (judged). Every 4th pair starts without the policy and an environment change switches it on while sessions wait: a sprint that runs under the policy and starts, in both twins, from the same stored state and input once URN-by-contract members and output-only stored events are removed must produce equal outputs.",
   "Fields that carry URNs by contract are projected away by an explicit list; transfer_airtime is excluded (its service errors name the number by contract); presence tests on URNs (empty value) are allowed by design.")
 
 CLAIMED["C16"] = ("fault_enumeration",
@@ -61,7 +61,7 @@ CLAIMED["C09"] = ("exploration",
   "DESIGN.md §3.6, §5 C09")
 
 sim_claim("C07", "trace validation: every router test call recorded through the exported test registry and checked, per routed step in execution order, against a reference decision-list model; random draws and timeouts are owned by the simulator",
-  "Narrowed scope: decides the decision-list semantics in context (cases tried in definition order up to and including the first truthy result with errors counting as no match, default category otherwise, timeout resume => the wait's timeout category, random router => category floor(r*n) for a draw r that the simulator's own random source supplied during that call, no router => first exit, no category => the run fails) and the saved result (category name, value = match or operand, input = operand), in live simulated sprints. It does not decide whether each individual test function is right for every operand (pure).",
+  "Narrowed scope: decides the decision-list semantics in context (cases tried in definition order up to and including the first truthy result with errors counting as no match, default category otherwise, timeout resume => the wait's timeout category, random router => category floor(r*n) for a draw r that the simulator's own random source supplied during that call, no router => first exit, no category => the run fails, a router never hands the engine an error instead of an exit), the localized literal arguments the tests are handed, and the saved result (category name, value = match or operand, input = operand; also where value and category are unchanged and no event is logged: the stored result must name this node, category, operand and localized category when nothing later in the run can save under the key), in live simulated sprints. It does not decide whether each individual test function is right for every operand (pure).",
   "Calls are attributed to routings twice, by a control-flow reference model and by pointer-identical operands; sprints where the two cannot be reconciled (e.g. adjacent routings with a nil operand) are skipped and counted, never judged. Result checks use large character limits so that nothing is truncated.")
 sim_claim("C18", "reference model of the documented language fallback evaluated over marked texts in event order, while contact language, allowed languages and translations change during the session",
   "Narrowed scope: for the configurations and histories the simulator drives. Every literal text of generated flows carries a marker naming (item, language, property); scanning each sprint's events in order and tracking the contact language (set_contact_language earlier in the sprint, UI edits / contact_refreshed between sprints) and the environment (environment_refreshed), every msg_created is compared with the reference chain (contact language if allowed -> environment default -> flow base; [] and [\"\"] count as empty; text, attachments, quick replies independently; locale = language of the text, then attachments, then quick replies), as are category_localized of results and the literal arguments handed to router tests.",
